@@ -36,22 +36,31 @@ pub fn any_atan(_x: f32) -> f32 {
     kani::any()
 }
 
-/// replaces `f32::atan` in the marker harnesses: the correctly rounded values
-/// for the only slopes that lattice cell segments have, any f32 otherwise.
+/// replaces `f32::atan` in the marker harnesses: for the only slopes that
+/// lattice cell segments have (svgbob's `slope()` doubles dy, so 0, +-2, +-4,
+/// +-inf) any value within 1e-4 of the mathematical arctangent (libm's result
+/// is within 1 ulp of it, so this over-approximates libm); any f32 otherwise.
 pub fn atan_axis(x: f32) -> f32 {
-    if x == 0.0 {
-        x // keeps the sign of zero, as libm does
+    let exact: f32 = if x == 0.0 {
+        return x;
     } else if x == f32::INFINITY {
         std::f32::consts::FRAC_PI_2
     } else if x == f32::NEG_INFINITY {
         -std::f32::consts::FRAC_PI_2
     } else if x == 2.0 {
-        1.1071488_f32
+        1.1071488
     } else if x == -2.0 {
-        -1.1071488_f32
+        -1.1071488
+    } else if x == 4.0 {
+        1.3258177
+    } else if x == -4.0 {
+        -1.3258177
     } else {
-        kani::any()
-    }
+        return kani::any();
+    };
+    let r: f32 = kani::any();
+    kani::assume(r >= exact - 1.0e-4 && r <= exact + 1.0e-4);
+    r
 }
 
 /// replaces `f32::powf`: exact square for exponent 2, any f32 otherwise.
